@@ -6,6 +6,7 @@ import SwcVerif.Model.Branches
 import SwcVerif.Model.Sort
 import SwcVerif.Model.Dsu
 import SwcVerif.Model.Subtree
+import SwcVerif.Model.Asc
 
 def dispatch (op : String) (args : List String) : String :=
   match op with
@@ -21,6 +22,7 @@ def dispatch (op : String) (args : List String) : String :=
   | "dsu" => Dsu.handleDsu args
   | "hascyclic" | "bifurcate" | "singleroot" | "getdsu" | "somas" | "nearest" => Dsu.handleCheck op args
   | "subtree" | "tosub" | "subtopo" | "cutenter" | "cutdepth" | "cutleave" | "cuttype" | "cutorder" | "cuttip" => Sub.handle op args
+  | "asc" | "asclex" => Asc.handle op args
   | "swcline" => SwcText.handleLine args
   | "swcread" => SwcText.handleRead args
   | "swcwrite" => SwcText.handleWrite args
